@@ -354,9 +354,10 @@ def drive_range(cm, np, rng, n_events, out, rep):
                 rep.cls("exhausted_after_message")
                 break
         # now and then: a decoder over arbitrary words, decoding with arbitrary models (documented errors only)
-        if rng.random() < 0.3:
+        if rng.random() < 0.5:
             k = rng.randint(0, 5)
             data = [rng.choice([0, 0xffffffff, rng.getrandbits(32), rng.getrandbits(32)]) for _ in range(k)]
+            if rng.random() < 0.35: data = [0xffffffff] * rng.randint(1, 4)       # all ones: invalid for every model at once
             dec = Q.RangeDecoder(np.array(data, dtype=np.uint32))
             emit({"ev": "decoder_over", "data": lw(data), "maybe_exhausted": bool(dec.maybe_exhausted())}); rep.cls("decoder_over_garbage")
             for _ in range(rng.randint(1, 8)):
@@ -366,6 +367,113 @@ def drive_range(cm, np, rng, n_events, out, rep):
                     emit({"ev": "dec", "items": [[mods.spec(d), got]], "maybe_exhausted": bool(dec.maybe_exhausted())}); rep.cls("dec_garbage")
                 except (ValueError, AssertionError, RuntimeError) as e:
                     emit({"ev": "dec_invalid", "error": str(e)[:80]}); rep.cls("dec_invalid_data")
+    f.close()
+
+
+def drive_chain(cm, np, rng, n_events, out, rep):
+    C = cm.stream.chain.ChainCoder
+    mods = Models(rng, cm, np, rep)
+    f = open(out + ".ndjson", "w")
+
+    def emit(ev):
+        f.write(json.dumps(ev) + "\n"); rep.events += 1
+
+    def observe(c, ev):
+        a, b = c.get_remainders()
+        ev["rem_prefix"] = lw(int(x) for x in a); ev["rem_suffix"] = lw(int(x) for x in b)
+        try:
+            a, b = c.get_data(); ev.update({"data_ok": True, "data_prefix": lw(int(x) for x in a), "data_suffix": lw(int(x) for x in b)})
+        except AssertionError:
+            ev.update({"data_ok": False})
+        try:
+            a, b = c.get_data(unseal=True); ev.update({"unseal_ok": True, "unseal_prefix": lw(int(x) for x in a), "unseal_suffix": lw(int(x) for x in b)})
+        except AssertionError:
+            ev.update({"unseal_ok": False})
+        emit(ev)
+
+    while rep.events < n_events:
+        # ---- construct from random data (binary / compressed), decode a history, optionally re-import the remainders, encode back
+        k = rng.randint(0, 9)
+        data = [rng.choice([0, 1, 0xffffffff, rng.getrandbits(32), rng.getrandbits(32), rng.getrandbits(32), rng.getrandbits(9)]) for _ in range(k)]
+        how = rng.choice(["binary", "binary", "compressed"])
+        try:
+            coder = C(np.array(data, dtype=np.uint32), False, how == "binary")
+        except ValueError:
+            emit({"ev": "ctor_refused", "how": how, "data": lw(data)}); rep.cls("ctor_refused"); continue
+        observe(coder, {"ev": "ctor", "how": how, "data": lw(data)}); rep.cls("ctor_" + how)
+        hist = []        # (descriptor, symbol) in decoding order
+        for _ in range(rng.randint(0, 8)):
+            form = rng.random()
+            before = coder.clone()
+            try:
+                if form < 0.45:
+                    d = mods.desc(); got = [int(coder.decode(mods.build(d)))]; ds = [d]; rep.cls("dec_single")
+                elif form < 0.7:
+                    d = mods.desc(); n = rng.randint(0, 4); got = [int(x) for x in coder.decode(mods.build(d), n)]; ds = [d] * n; rep.cls("dec_iid_array")
+                else:
+                    fam = rng.choice(["uniform", "fast", "leaky"]); ds, _ = family(mods, rng, fam, rng.randint(1, 4))
+                    got = [int(x) for x in decode_family(coder.decode, cm, np, mods, fam, ds)]; rep.cls("dec_family_" + fam)
+            except AssertionError as e:
+                # documented: out of compressed data.  After a multi-symbol call the coder is somewhere in the middle; continue
+                # from the state before the call and confirm the error with single-symbol decodes
+                rep.cls("dec_out_of_data")
+                coder = before
+                emit_marker = {"ev": "clone"}; observe(coder, emit_marker)
+                d = mods.desc()
+                while True:
+                    try:
+                        g = int(coder.decode(mods.build(d))); hist.append((d, g)); observe(coder, {"ev": "dec", "items": [[mods.spec(d), g]]})
+                    except AssertionError:
+                        observe(coder, {"ev": "dec_out_of_data"}); rep.cls("dec_out_of_data_single"); break
+                break
+            for d, g in zip(ds, got): hist.append((d, g))
+            observe(coder, {"ev": "dec", "items": [[mods.spec(d), g] for d, g in zip(ds, got)]})
+        # ---- optionally continue from the exported remainders (suffix only, or prefix and suffix concatenated)
+        mode = rng.choice(["same", "suffix", "concat"])
+        prefix = []
+        if mode != "same":
+            a, b = coder.get_remainders(); a = [int(x) for x in a]; b = [int(x) for x in b]
+            words = b if mode == "suffix" else a + b
+            prefix = a if mode == "suffix" else []
+            try:
+                coder = C(np.array(words, dtype=np.uint32), True, False)
+                observe(coder, {"ev": "ctor", "how": "remainders", "data": lw(words)}); rep.cls("ctor_remainders_" + mode)
+            except ValueError:
+                emit({"ev": "ctor_refused", "how": "remainders", "data": lw(words)}); rep.cls("ctor_refused"); continue
+        # ---- encode the history back in reverse (single symbols, iid runs, families)
+        i = len(hist)
+        failed = False
+        while i > 0 and not failed:
+            d, s = hist[i - 1]
+            run = 1
+            while i - run > 0 and hist[i - 1 - run][0] is d and run < 5: run += 1
+            form = rng.random()
+            try:
+                if form < 0.5 or run == 1:
+                    coder.encode_reverse(s, mods.build(d)); items = [[mods.spec(d), s]]; i -= 1; rep.cls("enc_single")
+                else:
+                    syms = [h[1] for h in hist[i - run:i]]
+                    coder.encode_reverse(np.array(syms, dtype=np.int32), mods.build(d)); items = [[mods.spec(d), x] for x in reversed(syms)]; i -= run; rep.cls("enc_iid_array")
+            except AssertionError:
+                observe(coder, {"ev": "enc_out_of_remainders", "items": [[mods.spec(d), s]]}); rep.cls("enc_out_of_remainders"); failed = True; break
+            observe(coder, {"ev": "enc", "items": items})
+        if failed or i > 0: continue
+        # ---- everything encoded back: the original data must be restored (C13)
+        try:
+            a, b = coder.get_data(unseal=(how == "binary"))
+            back = prefix + [int(x) for x in a] + [int(x) for x in b]
+            if back != data: rep.bad("chain coder (python): data %r, history of %d symbols, restore mode %s: got back %r" % (data, len(hist), mode, back))
+            rep.cls("restored_" + mode)
+        except AssertionError:
+            rep.bad("chain coder (python): get_data failed after encoding the whole history back (data %r, mode %s)" % (data, mode))
+        if rng.random() < 0.3:
+            d = mods.desc(); sup = list(mods.support(d))
+            try:
+                coder.encode_reverse(sup[-1] + 1, mods.build(d)); rep.bad("encoding an impossible symbol succeeded")
+            except KeyError:
+                rep.cls("enc_refused")
+            except BaseException as e:
+                rep.bad("impossible symbol raised %s: %s" % (type(e).__name__, str(e)[:100]))
     f.close()
 
 
@@ -436,7 +544,7 @@ def main():
     rng = random.Random(a.seed * 7919 + hash(a.coder) % 1000 if False else a.seed * 7919 + sum(map(ord, a.coder)))
     rep = Report()
     try:
-        {"ans": drive_ans, "range": drive_range}[a.coder](cm, np, rng, a.n, a.out, rep)
+        {"ans": drive_ans, "range": drive_range, "chain": drive_chain}[a.coder](cm, np, rng, a.n, a.out, rep)
     except BaseException as e:      # a panic in the extension module surfaces as pyo3_runtime.PanicException (a BaseException)
         rep.bad("exception escaped from a Python API call that the driver expects to succeed: %s: %s\n%s" % (type(e).__name__, e, traceback.format_exc()[-1500:]))
     json.dump({"events": rep.events, "classes": rep.classes, "mismatches": rep.mismatches}, open(a.out + ".report.json", "w"))
